@@ -170,6 +170,16 @@ def success_cells(version):
     for c in b.reqs:
         out.append(cell(version, c, "all", "none", 0, b.run(c, 0, None)))
     if version == 2:
+        # well-formed successful answers at the edges of their encodings (the firmware strips leading zeros of the
+        # difficulty: 0 is an empty payload, the maximum has 36 bytes) must still be reported as success
+        d = b.world.device
+        saved = (d.state_diff, d.state_flags)
+        for diff in (b"", b"\x01", b"\x00\x01", b"\xff" * 36, b"\x80" + bytes(35), bytes(36), b"\x01" + bytes(32)):
+            for flags in (bytes(3), b"\x01\x01\x01"):
+                b.reset()
+                d.state_diff, d.state_flags = diff, flags
+                out.append(cell(version, "blockchainState", "all", "none", 0, b.run("blockchainState", 0, None)))
+        d.state_diff, d.state_flags = saved
         b.reset()
         b.world.device.block_policy = FaithfulBlockPolicy(stop_after=(1, "partial"))
         o = mgr.handle_line(b.proto, b.reqs["advanceBlockchain"])
